@@ -15,7 +15,6 @@ import (
 
 	"verif/harness/internal/eng"
 	"verif/harness/internal/hx"
-	"verif/harness/internal/sim"
 )
 
 func init() { hx.Register("c12", func() hx.Property { return &c12{} }) }
@@ -36,80 +35,15 @@ func (*c12) Rule() string {
 		"hook resource rejected (5%); non-trivial = some operation issued at least 2 hook creations or had a failing hook; distinct = hash of (case, observation)"
 }
 
-// c12Obs: the engine observation plus the raw request log of each step.
-type c12Obs struct {
-	eng.Obs
-	Reqs [][]sim.Req `json:"reqs"`
-}
-
 func (*c12) Decode(raw json.RawMessage) (any, error) {
 	var h eng.History
 	err := json.Unmarshal(raw, &h)
 	return h, err
 }
 
-func c12Execute(h eng.History) c12Obs {
-	r := eng.NewRunner(h.Backend)
-	for _, x := range h.Init {
-		r.Srv.Put(x.Kind, x.Name, x.Fields)
-	}
-	var o c12Obs
-	for _, s := range h.Steps {
-		n0 := len(r.Srv.Log)
-		if s.Op != nil {
-			o.Steps = append(o.Steps, r.RunOp(s.Op))
-		} else {
-			// edits are not used by C12/C03 generators, but replay files may carry them
-			sub := r.Run(eng.History{Steps: []eng.Step{s}})
-			o.Steps = append(o.Steps, sub.Steps...)
-		}
-		o.Reqs = append(o.Reqs, append([]sim.Req{}, r.Srv.Log[n0:]...))
-	}
-	return o
-}
-
 func (*c12) Execute(ci any) any { return c12Execute(ci.(eng.History)) }
 
 func (*c12) CoqCase(ci, oi any) string { return eng.CoqCase(ci.(eng.History), oi.(c12Obs).Obs) }
-
-func cm(name string, kv ...string) eng.Res {
-	f := map[string]string{}
-	for i := 0; i+1 < len(kv); i += 2 {
-		f[kv[i]] = kv[i+1]
-	}
-	return eng.Res{Kind: "ConfigMap", Name: name, Fields: f}
-}
-
-func hk(name string, weight int, events []string, policies ...string) eng.Hook {
-	return eng.Hook{Res: cm(name, "d:h", name), Events: events, Weight: weight, Policies: policies}
-}
-
-func c12Op(kind string, chart int, f eng.Flags, hooks []eng.Hook, keys ...string) *eng.Op {
-	op := &eng.Op{Kind: kind, Flags: f, ChartID: chart, ValsID: chart, Hooks: hooks}
-	for _, k := range keys {
-		op.Manifest = append(op.Manifest, cm(k, "d:k", fmt.Sprintf("v%d", chart)))
-	}
-	return op
-}
-
-func hist(steps ...*eng.Op) eng.History {
-	h := eng.History{Backend: "secret"}
-	for _, s := range steps {
-		h.Steps = append(h.Steps, eng.Step{Op: s})
-	}
-	return h
-}
-
-func withH(op *eng.Op, name string, nth int) *eng.Op {
-	o := *op
-	o.HFault = &eng.HFault{Name: name, Nth: nth}
-	return &o
-}
-func withK(op *eng.Op, verb, key string) *eng.Op {
-	o := *op
-	o.KFault = &eng.KFault{Verb: verb, Key: key}
-	return &o
-}
 
 // the probe of DESIGN.md: hb(-1), hd(0), ha(5), hz(5) with mixed policies
 func probeHooks(ev ...string) []eng.Hook {
@@ -222,16 +156,6 @@ func c12HookFailed(op *eng.Op, o c12Obs, i int) bool {
 	}
 	// a watch failure shows as a hookwatch that is not followed by further progress and an error outcome
 	return op.HFault != nil && o.Steps[i].Outcome != "ok" && countCalls(o.Steps[i].Trace, "hookwatch") > 0
-}
-
-func countCalls(t []eng.TEv, name string) int {
-	n := 0
-	for _, e := range t {
-		if e.Call == name {
-			n++
-		}
-	}
-	return n
 }
 
 func (*c12) NonTrivial(ci, oi any) bool {
